@@ -98,4 +98,17 @@ func init() {
 		Rule:      "one evaluation = one damaged multi-segment V2 log: a 3-5 segment log with keys repeated across segments is built through the real API and one *.log is damaged (single-bit flips, 1-8 byte overwrites, truncation at every length, zero-filled tails; quick: seeded sample of 400 per log, thorough: every position and bit of one segment); the log is reopened with default options and Consume (all offsets x maxCount 1,3,40), Get, GetByKey, ConsumeByKey, GetByTime run under recover() and an allocation meter: never a wrong message, no panic, bounded allocation; for in-place overwrites inside a record every call whose undamaged answer includes the record must fail and every call answered from other files must be unchanged; distinct_nontrivial counts distinct (damage kind, in-record?, damaged segment position) classes",
 		Assume:    dAssume,
 		Technique: "deterministic simulation with fault injection: enumerated stored-byte damage of one segment of a multi-segment log, differential read battery with must-error / must-equal / never-wrong classification"})
+	sAssume := append([]string{
+		"yields at every synchronisation, atomic, channel and file-system operation: complete for data-race-free code; racy code is caught by the race oracle rather than by interleaving its plain accesses",
+		"exactly one task runs at a time; the hand-off between tasks is invisible to the race detector, so it sees only klevdb's own synchronisation (Go itself adds happens-before edges at file I/O, which can hide a race from uniform random schedules: hold and PCT strategies get most of the budget)",
+		"porcupine Unknown (timeout) is counted as inconclusive, never as a violation",
+	}, commonAssume...)
+	register(&PropDef{ID: "C08", Engine: "S", Gen: genPlanC08, RunPlan: runPlanS, Race: true, Level: "exploration", QuickS: 60, ThorS: 900,
+		Rule:      "one evaluation = one seeded schedule of 2-6 tasks x 1-4 calls (Publish, Consume, ConsumeByKey, Get, GetByKey, GetByTime, Delete, Sync, NextOffset, Stat, GC) on a log with 1-3 messages per segment (pre-populated segments, V1/V2, KeepRewriteVersion), run under the serialized scheduler with strategy random / PCT / hold (a victim parked at its j-th yield while the others run to completion) / sequential with pre-emptions, half of the workers under the race detector; oracles: no race report, no error or panic that no sequential execution produces, no deadlock/livelock, porcupine linearizability of the recorded history (plus a final sequential battery) against the reference model; distinct_nontrivial counts distinct schedule signatures (hash of the context-switch sequence with the yield site of each switch) of runs with at least one context switch",
+		Assume:    sAssume,
+		Technique: "deterministic simulation: serialized seeded scheduler over real goroutines (random/PCT/hold), Go race detector under a race-transparent hand-off, porcupine linearizability check"})
+	register(&PropDef{ID: "C18", Engine: "S", Gen: genPlanC18, RunPlan: runPlanS, Race: true, Level: "exploration", QuickS: 60, ThorS: 900,
+		Rule:      "one evaluation = one seeded schedule of 1-8 waiter tasks (ConsumeBlocking / ConsumeByKeyBlocking at offsets below, at, above NextOffset and relative), 0-3 publisher tasks and a controller (cancels, publishes, Close at a chosen yield or at quiescence, waits that start after Close) under the serialized scheduler with yields inside the notifier (atomic loads, barrier token receive/send, close, select); oracles: nobody parked at quiescence who should have been woken, no return without a publish/close/cancel to justify it, successful results linearizable as Consume/ConsumeByKey, context and closed errors only when justified, no deadlock/panic/race; distinct_nontrivial counts distinct schedule signatures of runs with at least one context switch",
+		Assume:    sAssume,
+		Technique: "deterministic simulation: serialized seeded scheduler with yields inside the notifier, quiescence checks for lost/spurious wake-ups, porcupine for results"})
 }
